@@ -1,5 +1,111 @@
-//! C09 — not built yet.
-#![allow(unused)]
+//! C09 — special functions (gamma, beta, digamma, erf).
+use crate::libm::{self, reference};
 use crate::util::*;
-pub fn gen(_tier: &str, _seed: u64, _outdir: &str) { eprintln!("C09: gen not implemented"); std::process::exit(3); }
-pub fn oracle(_tier: &str, _seed: u64) -> (u64, Vec<Finding>) { eprintln!("C09: oracle not implemented"); std::process::exit(3); }
+use compute::functions::{beta, digamma, erf, gamma};
+
+/// distance from x to the nearest pole of Gamma (non-positive integers), for x < 0.5
+fn pole_dist(x: f64) -> f64 { if x >= 0.5 { f64::INFINITY } else { (x - x.round()).abs() } }
+
+fn f32_sweep(lo: f32, hi: f32, stride: u32, mut f: impl FnMut(f64)) {
+    // every stride-th f32 in [lo, hi], walking the bit patterns (both signs)
+    let mut ranges: Vec<(f32, f32, f64)> = vec![];
+    if lo < 0.0 { ranges.push((if hi < 0.0 { -hi } else { 0.0 }, -lo, -1.0)); }
+    if hi > 0.0 { ranges.push((if lo > 0.0 { lo } else { 0.0 }, hi, 1.0)); }
+    for (a, b, sg) in ranges {
+        let (mut i, e) = (a.to_bits(), b.to_bits());
+        while i <= e { f(sg * f32::from_bits(i) as f64); i = i.saturating_add(stride.max(1)); }
+    }
+}
+
+pub fn oracle(tier: &str, seed: u64) -> (u64, Vec<Finding>) {
+    let thorough = tier == "thorough";
+    let mut r = Rng::new(seed ^ 0xC09);
+    let mut out: Vec<Finding> = vec![]; let mut tried = 0u64;
+    let mut worst: std::collections::BTreeMap<String, (f64, String, String)> = Default::default();
+    let mut fail = |class: &str, sev: f64, what: String, input: String| {
+        let e = worst.entry(class.to_string()).or_insert((0.0, String::new(), String::new()));
+        if sev > e.0 || e.1.is_empty() { *e = (sev, what, input); }
+    };
+    // ---- gamma against glibc tgamma: relative error 1e-13, scaled by pole proximity for x < 0.5
+    let mut chk_gamma = |x: f64, tried: &mut u64| {
+        let want = reference::tgamma(x);
+        if !want.is_finite() || want.abs() < f64::MIN_POSITIVE { return; }
+        let d = pole_dist(x);
+        if d < 1e-3 { return; }
+        *tried += 1;
+        let got = gamma(x);
+        // reflection: the relative condition number of Gamma near a pole grows like |x|/d; the property scales by proximity
+        let tol = 1e-13 * if x < 0.5 { (1.0f64).max(x.abs() / d) } else { 1.0 };
+        let err = ((got - want) / want).abs();
+        if !(err <= tol) {
+            let class = if !got.is_finite() { "gamma:nonfinite-where-true-value-finite" } else if x < 0.5 { "gamma:inaccurate-reflection" } else { "gamma:inaccurate" };
+            fail(class, if got.is_finite() { err / tol } else { f64::MAX }, format!("gamma({:e}) = {:e}, true value {:e}, relative error {:e} > {:e}", x, got, want, err, tol), format!("x={:e}", x));
+        }
+    };
+    let stride = if thorough { 1u32 << 6 } else { 1u32 << 12 };
+    f32_sweep(-170.0, 171.6, stride, |x| chk_gamma(x, &mut tried));
+    for _ in 0..(if thorough { 200000 } else { 20000 }) { let x = r.uniform(-170.0, 171.6); chk_gamma(x, &mut tried); }
+    for n in 1..=171 { chk_gamma(n as f64, &mut tried); chk_gamma(n as f64 + 0.5, &mut tried); }
+    // ---- identities: Gamma(x+1) = x Gamma(x), Gamma(n+1) = n!
+    for _ in 0..(if thorough { 50000 } else { 5000 }) {
+        let x = r.uniform(0.01, 170.0); tried += 1;
+        let (a, b) = (gamma(x + 1.0), x * gamma(x));
+        let err = ((a - b) / b).abs();
+        if !(err <= 2e-13) { fail("gamma:recurrence", err, format!("gamma(x+1) = {:e} but x*gamma(x) = {:e} (relative difference {:e})", a, b, err), format!("x={:e}", x)); }
+    }
+    let mut fact = 1.0f64;
+    for n in 1..=170u32 { fact *= n as f64; tried += 1; let g = gamma(n as f64 + 1.0); let err = ((g - fact) / fact).abs();
+        if !(err <= 1e-13) { fail("gamma:factorial", if g.is_finite() { err } else { f64::MAX }, format!("gamma({}) = {:e}, {}! = {:e}", n + 1, g, n, fact), format!("n={}", n)); } }
+    // ---- beta
+    for _ in 0..(if thorough { 100000 } else { 10000 }) {
+        let (a, b) = if r.coin(0.5) { (r.uniform(1e-3, 80.0), r.uniform(1e-3, 80.0)) } else { ((r.uniform((1e-3f64).ln(), (80f64).ln())).exp(), (r.uniform((1e-3f64).ln(), (80f64).ln())).exp()) };
+        tried += 1;
+        let want = (reference::lgamma(a) + reference::lgamma(b) - reference::lgamma(a + b)).exp();
+        let want2 = reference::tgamma(a) * reference::tgamma(b) / reference::tgamma(a + b);
+        let want = if want2.is_finite() && want2 > 0.0 { want2 } else { want };
+        let got = beta(a, b);
+        let err = ((got - want) / want).abs();
+        if !(err <= 1e-12) { fail(if got.is_finite() && got != 0.0 { "beta:inaccurate" } else { "beta:degenerate" }, err, format!("beta({:e},{:e}) = {:e}, Gamma(a)Gamma(b)/Gamma(a+b) = {:e}", a, b, got, want), format!("a={:e} b={:e}", a, b)); }
+        let sym = beta(b, a); let e2 = ((got - sym) / want).abs();
+        if !(e2 <= 1e-12) { fail("beta:asymmetric", e2, format!("beta(a,b) = {:e} but beta(b,a) = {:e}", got, sym), format!("a={:e} b={:e}", a, b)); }
+    }
+    // ---- digamma: integers against harmonic numbers, recurrence, accuracy 1e-10 rel. to max(1,|psi|)
+    const EULER: f64 = 0.577_215_664_901_532_9;
+    let mut h = 0.0f64; let mut hc = 0.0f64; // Kahan harmonic
+    let nmax = if thorough { 10000 } else { 2000 };
+    for n in 1..=nmax { tried += 1;
+        let want = h - EULER; let got = digamma(n as f64);
+        let err = (got - want).abs() / want.abs().max(1.0);
+        if !(err <= 1e-10) { fail("digamma:integers", err, format!("digamma({}) = {:e}, H_(n-1) - gamma = {:e}", n, got, want), format!("n={}", n)); }
+        let y = 1.0 / n as f64 - hc; let t = h + y; hc = (t - h) - y; h = t; }
+    for _ in 0..(if thorough { 100000 } else { 10000 }) {
+        let x = (r.uniform((1e-3f64).ln(), (1e6f64).ln())).exp(); tried += 1;
+        let (a, b) = (digamma(x + 1.0), digamma(x) + 1.0 / x);
+        let err = (a - b).abs() / a.abs().max(1.0).max(1.0 / x);
+        if !(err <= 1e-10) { fail("digamma:recurrence", err, format!("digamma(x+1) = {:e}, digamma(x)+1/x = {:e}", a, b), format!("x={:e}", x)); }
+        // independent reference: numerical derivative of lgamma is too rough; use the series at x+20 with recurrence in double-double-free form
+        let mut s = 0.0; let mut y = x; while y < 30.0 { s += 1.0 / y; y += 1.0; }
+        let y2 = y * y; let asym = reference_ln(y) - 0.5 / y - 1.0 / (12.0 * y2) * (1.0 - 1.0 / (10.0 * y2) * (1.0 - 10.0 / (21.0 * y2) * (1.0 - 21.0 / (20.0 * y2))));
+        let want = asym - s; let got = digamma(x);
+        let err = (got - want).abs() / want.abs().max(1.0);
+        if !(err <= 1e-10) { fail("digamma:inaccurate", err, format!("digamma({:e}) = {:e}, reference {:e}", x, got, want), format!("x={:e}", x)); }
+    }
+    // ---- erf: odd, |erf| <= 1, within 1.5e-7 of the true erf
+    let mut chk_erf = |x: f64, tried: &mut u64| { *tried += 1;
+        let got = erf(x); let want = reference::erf(x);
+        if !(got.abs() <= 1.0) { fail("erf:exceeds-1", got.abs(), format!("|erf({:e})| = {:e} > 1", x, got.abs()), format!("x={:e}", x)); }
+        let err = (got - want).abs();
+        if !(err <= 1.5e-7) { fail("erf:inaccurate", err, format!("erf({:e}) = {:e}, true {:e}, error {:e} > 1.5e-7", x, got, want, err), format!("x={:e}", x)); }
+        let m = erf(-x);
+        if x != 0.0 && m != -got { fail("erf:not-odd", 1.0, format!("erf(-x) = {:e} but -erf(x) = {:e}", m, -got), format!("x={:e}", x)); }
+        if x == 0.0 && (m != -got) { fail("erf:not-odd-at-zero", 1.0, format!("erf(-0) = {:e} but -erf(0) = {:e} (an odd function vanishes at 0)", m, -got), "x=0".into()); }
+    };
+    f32_sweep(-6.0, 6.0, if thorough { 1 << 4 } else { 1 << 10 }, |x| chk_erf(x, &mut tried));
+    for _ in 0..(if thorough { 200000 } else { 20000 }) { let x = r.uniform(-40.0, 40.0); chk_erf(x, &mut tried); }
+    chk_erf(0.0, &mut tried);
+    for (class, (_, what, input)) in worst { out.push(Finding { class, what, input }); }
+    (tried, out)
+}
+fn reference_ln(x: f64) -> f64 { x.ln() }
+
+pub fn gen(_tier: &str, _seed: u64, _outdir: &str) { let _ = libm::start; eprintln!("C09: gen not implemented"); std::process::exit(3); }
